@@ -644,7 +644,21 @@ class Engine(TorchDispatchMode):
         kwargs = kwargs or {}
         from . import ops
 
-        return ops.dispatch(self, func, args, kwargs)
+        try:
+            return ops.dispatch(self, func, args, kwargs)
+        except BaseException as e:  # noqa
+            # the TorchScript interpreter re-raises anything thrown by a handler as a bare RuntimeError: remember the
+            # engine's own signals so that they can be restored (resurface())
+            if isinstance(e, (PathAbort, UnsupportedOp, EngineMismatch, T.UnsupportedTerm, T.NonFinite)):
+                self.pending_signal = e
+            raise
+
+    def resurface(self, exc):
+        """if `exc` is TorchScript's wrapper around one of the engine's own signals, raise the signal instead"""
+        sig = getattr(self, "pending_signal", None)
+        if sig is not None and exc is not sig and isinstance(exc, RuntimeError) and "TorchScript" in str(exc):
+            self.pending_signal = None
+            raise sig
 
 
 def _same_cell(a, b):
